@@ -213,10 +213,29 @@ def _gen_main(rng, tier):
                         yield f"{CLAMP[(x + mn + mx) % 2]} {s}8x1 {hx(x)} {hx(mn)} {hx(mx)}", "exhaustive8-clamp"
 
 
-def gen(rng, tier):
+# `num_traits::Signed::{signum, is_positive, is_negative}` (src/bint/numtraits.rs) are a second public route to the sign
+# of a value; "signum, is_positive and is_negative report the sign of the denoted value" is about them too.  Every sign
+# request is repeated through the trait (vocabulary and harness bin of C18).  Added after seeded change C07-r7m2
+# (`Signed::is_positive` reading only the sign digit: true for zero).
+HARNESS_BINS = ["c07", "c18"]
+
+
+def ROUTE(line):
+    return "c18" if line.startswith("nt_") else "c07"
+
+
+def _all(rng, tier):
     yield from _gen_main(rng, tier)
     yield from _grid(rng, tier)
     yield from _huge(rng, tier)
+
+
+def gen(rng, tier):
+    for c in _all(rng, tier):
+        yield c
+        op = c[0].split(" ", 1)[0]
+        if op in SIGN:
+            yield ("nt_" + c[0],) + tuple(c[1:])
 
 
 def _grid(rng, tier):
